@@ -14,6 +14,7 @@ import contextlib
 import io
 import json
 import os
+import signal
 import sys
 import warnings
 
@@ -105,7 +106,14 @@ class Interp:
                 if got is not args[0]:
                     exc = "bad-return"
             elif op == "update":
-                got = self.obj[st["id"]].update(args)
+                # any collection of schedulables will do: list, tuple, set, iterator
+                coll = [args, tuple(args), None, iter(args)][st["x"] % 4]
+                if coll is None:
+                    try:
+                        coll = set(args)
+                    except TypeError:        # an unhashable placeholder (a list) among them
+                        coll = args
+                got = self.obj[st["id"]].update(coll)
                 if got is not self.obj[st["id"]]:
                     exc = "bad-return"
             elif op == "remove":
@@ -117,7 +125,24 @@ class Interp:
         return exc
 
 
-def run_program(prog):
+class WallClock(BaseException):
+    """a call into the library is taking real time (it loops, or waits for something)"""
+
+
+def _alarm(_signum, _frame):
+    raise WallClock()
+
+
+def run_program(item):
+    signal.signal(signal.SIGALRM, _alarm)
+    signal.setitimer(signal.ITIMER_REAL, 15)
+    try:
+        return _run_program(item)
+    finally:
+        signal.setitimer(signal.ITIMER_REAL, 0)
+
+
+def _run_program(prog):
     sink = io.StringIO()
     steps = []
     with contextlib.redirect_stdout(sink):
